@@ -71,7 +71,10 @@ CLAIMS = {
             'bytes of the encoding specification X86Enc.v for every register, displacement and immediate; theorem C03_alu_arms: for the 38 ALU opcodes emitted directly the '
             'emitted instruction sequence (regenerated) computes the ISA value under the x86 semantics X86Sem.v, clobbering only RCX; theorem C03_jump_conditions: for all 44 '
             'conditional jumps the emitted cmp / test and condition code branch iff the ISA condition holds; theorems C03_memory_accesses_*: the 22 memory opcodes make the ISA '
-            'access. Searched, not proved: the other opcodes (mul/div/mod shuffling, calls, lddw, byte swaps, prologue), jump fix-up bytes and the CPU itself, by executing compiled '
+            'access; theorem C03_muldiv_arms: for the 12 mul / div / mod opcodes the sequence built by emit_muldivmod (regenerated; sequence machine X86Seq.v with stack, '
+            'flags, MUL / DIV with #DE, a lone REX.W prefix and the rel32 jump inside the sequence, instruction lengths = the proved encodings, C03_muldiv_bytes) ends with the ISA '
+            'value in the destination, rax / rdx / the stack restored, only rcx clobbered, and never faults. Searched, not proved: the other opcodes (calls, lddw, byte swaps, prologue) '
+            'and the CPU itself, by executing compiled '
             'code in a child process against the interpreter on a corpus of ~8000 programs built to cover every opcode x every destination/source register pair x '
             'boundary immediates and displacements x control-flow shapes x program lengths above 65535 x 4 VM kinds (about 14000 runs), plus the C07 call graphs. '
             'Known finding D18 (callee frame pointer) is listed for this property too.',
